@@ -24,6 +24,8 @@ import DisjointImpls.CanonAlphaDefs
 import DisjointImpls.Lemmas.EndToEndNested
 import DisjointImpls.Lemmas.Acyclic
 import DisjointImpls.Lemmas.FlatAccept
+import DisjointImpls.Lemmas.ExpandInherent
+import DisjointImpls.Props.C17
 open DI
 
 def rToSx : R → Sx
@@ -82,7 +84,13 @@ def handleExpand (args : List Sx) : Sx :=
                | some hs => .list (hs.map T.toSx)
                | none => .list [.sym "panic"]), mi,
               -- hypotheses of C01_expandOK_of_expand evaluated on this family of the model's grouping
-              boolSx (expandWF g), boolSx (wildcardsFixed g)]))]
+              boolSx (expandWF g), boolSx (wildcardsFixed g),
+              -- inherent mode: hypotheses (ExInh.sideConditions) and conclusion of C17_expandOK_of_expand_inherent on the model's expansion
+              (match trait_ with
+               | some _ => .list []
+               | none => (match helperTraitOfInherent firstItem idx nkeys, helperImpls idx g, mainImplInherent idx g with
+                   | .ok tr, some hs, .ok (some m) => .list [boolSx (ExInh.sideConditions g), boolSx (expandOKInh_inh g (thetasOf g) tr hs m)]
+                   | _, _, _ => .list [boolSx (ExInh.sideConditions g), .sym "none"]))]))]
       | .unableToForm _ => .list [.sym "unable"]
       | .panic _ => .list [.sym "panic"]
   | _ => .list [.sym "bad-args"]
@@ -132,9 +140,32 @@ def handleExpandOK (args : List Sx) : Sx :=
       | _ => .list [.sym "expandok", boolSx false, boolSx lenOK, .list (perHelper.map boolSx), .sym "no-main"]
   | _, _ => .list [.sym "bad-args"]
 
+/-- `expandokinh <gid> <idents> <payloads> <main> <helper trait> <helper_1> … <helper_n> -- <item_1> … <item_n>`: the full-strength
+    inherent-mode checker `expandOKInhCore_inh` (Lemmas/ExpandInherent.lean, the subject of `C17_expandOK_of_expand_inherent`) on real trees -/
+def handleExpandOKInh (args : List Sx) : Sx :=
+  let (pre, post) := args.span (fun a => match a with | .sym "--" => false | _ => true)
+  match pre.filterMap T.ofSx, (post.drop 1).filterMap T.ofSx with
+  | gid :: identsT :: rowsT :: mainT :: tr :: helpers, items =>
+      let idents : List (BKey × String) := match identsT with
+        | .node "List" [] xs => xs.filterMap (fun x => match x with
+            | .node "Tuple" [] [.node "Bounded" [] [b], .node "TraitBound" [] [p], .node "Ident" [a] []] => some ((b, p), a)
+            | _ => none)
+        | _ => []
+      let rows : List (List (Option T)) := match rowsT with
+        | .node "List" [] xs => xs.map decodeRow
+        | _ => []
+      let thetas : List Subst := items.map (fun it => match sup (unwrapT gid) (mkHdr (unwrapHeader it)) with
+        | .yes σ _ => σ
+        | _ => [])
+      match mainT with
+      | .node "Some" [] [m] => .list [.sym "expandokinh", boolSx (expandOKInhCore_inh gid idents rows items thetas tr helpers m)]
+      | _ => .list [.sym "expandokinh", .sym "no-main"]
+  | _, _ => .list [.sym "bad-args"]
+
 def handle (cmd : String) (args : List Sx) : Sx :=
   if cmd == "validate" then handleValidate args else
   if cmd == "expandok" then handleExpandOK args else
+  if cmd == "expandokinh" then handleExpandOKInh args else
   if cmd == "expand" then handleExpand args else
   match cmd, args.filterMap T.ofSx with
   | "sup", [a, b] => rToSx (sup a b)
